@@ -152,12 +152,15 @@ class StmtMixin:
             base = self.st.heap[base.t].f['__store__']
         if base.k == 'dict':
             h = self.st.heap[base.t]
-            try:
-                h.d[key_of(idx)] = v
-            except Unsupported:
-                if h.d:
-                    raise Unsupported('symbolic key stored into a dictionary that also has concrete keys')
-                h.sym.append((idx, v))
+            if h.sym or (not h.d and idx.k not in ('str', 'int')):
+                try:
+                    h.d[key_of(idx)] = v
+                except Unsupported:
+                    if h.d:
+                        raise Unsupported('symbolic key stored into a dictionary that also has concrete keys')
+                    h.sym.append((idx, v))
+                return
+            h.d[self.dict_key(h, idx)] = v
             return
         if base.k == 'opq':
             return self.opq_setitem(base, idx, v, node)
